@@ -70,6 +70,14 @@ def consumer_source(feature, tables, dump_types, std, serde, dec=False, consumer
             used += 1
     if serde:
         lines.append("fn assert_ser<T: serde::Serialize>(_t: &T) {}")
+    # the consumer also DEFINES quantities with the macro (the generated code resolves its names through the
+    # prelude of whatever configuration the library was built in): a basic one, and one without reference unit
+    lines += ["#[quantity]", '#[ref_unit(Cref, "c")]', '#[unit(Ckilo, "kc", KILO, 1000)]', '#[unit(Chalf, "hc", 0.5)]',
+              "pub struct Cq {}", "#[quantity]", '#[unit(Cn_A, "na")]', '#[unit(Cn_B, "nb")]', "pub struct Cn {}"]
+    body += ["    let c: Cq = Amnt!(3) * CKILO;", "    let _cs = c.convert(CREF) + Amnt!(1) * CHALF;", "    let _cn = CKILO.name();",
+             "    let _cu = CqUnit::from_symbol(\"kc\");", "    let n: Cn = Amnt!(2) * CN_A;", "    let _nn = n.unit().symbol();"]
+    # (no serde assertion on these: the derives the macro emits are gated on the feature `serde` of the crate
+    # that CONTAINS the definition, i.e. of this consumer crate, which has none)
     lines.append("pub fn consume() {")
     lines += body
     lines.append("}")
